@@ -74,3 +74,15 @@ package controllers
 //@   assert before forceReload: [onRequest] res == SyncStateReprocessAll
 //@   exit assert [errorIsRetried] res == SyncStateError ==> result1 != nil
 //@   requires [errVar] errRetry != nil
+
+// ---- C11: the pool status written is the allocator's counters ----
+//@ func field:go.universe.tf/metallb/internal/k8s/controllers.PoolStatusReconciler.CountersFetcher
+//@   trusted
+//@   modifies nothing
+// PoolStatusReconciler.Reconcile (abstracted mode): the status handed to the API server carries, field by field, the
+// counters fetched for that pool
+//@ func (*PoolStatusReconciler).Reconcile
+//@   abstract
+//@   exit assert [fieldByField] newStatus.AssignedIPv4 == c.AssignedIPv4 && newStatus.AssignedIPv6 == c.AssignedIPv6 && newStatus.AvailableIPv4 == c.AvailableIPv4 && newStatus.AvailableIPv6 == c.AvailableIPv6
+//@   assert before Update: [written] pool.Status == newStatus
+//@   assert before CountersFetcher: [thisPool] arg0 == pool.Name
